@@ -19,6 +19,8 @@ type Config struct {
 	MaxSteps   int   // SSA instructions per path
 	Unwind     int   // symbolic decisions per (frame, branch instruction)
 	MaxPaths   int
+	ViolCap    int             // stop exploring once this many paths ended in a violation of one label (0 = off)
+	KnownLabel map[string]bool // labels of listed known findings: never counted towards ViolCap
 	Workers    int
 	SolverKind string
 	TimeoutMs  int
@@ -71,6 +73,7 @@ type Sample struct {
 
 // Interp is the per-path interpreter state.
 type Interp struct {
+	hexOrigin map[*Term]hexOrig
 	ex   *Explorer
 	prog *ssa.Program
 	cfg  *Config
@@ -122,6 +125,8 @@ type Interp struct {
 }
 
 type Explorer struct {
+	violPaths  map[string]int
+	violCapHit string
 	prog    *ssa.Program
 	pkg     *ssa.Package
 	fn      *ssa.Function
@@ -199,6 +204,13 @@ func (ex *Explorer) worker(id int) {
 			break
 		}
 		if len(ex.aborts) > 0 {
+			ex.work = nil
+			ex.mu.Unlock()
+			ex.cond.Broadcast()
+			break
+		}
+		if ex.violCapHit != "" {
+			ex.incomplete = append(ex.incomplete, fmt.Sprintf("exploration stopped after %d paths violating %q with %d prefixes pending", ex.cfg.ViolCap, ex.violCapHit, len(ex.work)))
 			ex.work = nil
 			ex.mu.Unlock()
 			ex.cond.Broadcast()
@@ -674,10 +686,10 @@ func (in *Interp) obligation(cond *Term, label string, fault bool) {
 		}
 	}
 	if cond.IsFalse() {
-		panic(pathEnd{"violated:" + label})
+		in.violatedEnd(label)
 	}
 	if in.sol.CheckWith(cond) == Unsat {
-		panic(pathEnd{"violated:" + label})
+		in.violatedEnd(label)
 	}
 	in.record(Decision{Kind: 'o', Val: 1})
 	in.addPC(cond)
@@ -775,4 +787,21 @@ func sortedKeys(m map[string]bool) []string {
 	}
 	sort.Strings(ks)
 	return ks
+}
+
+// violatedEnd ends the path as a violation of label and counts it towards the violating-path cap.
+func (in *Interp) violatedEnd(label string) {
+	ex := in.ex
+	if ex.cfg.ViolCap > 0 && !ex.cfg.KnownLabel[label] {
+		ex.mu.Lock()
+		if ex.violPaths == nil {
+			ex.violPaths = map[string]int{}
+		}
+		ex.violPaths[label]++
+		if ex.violPaths[label] >= ex.cfg.ViolCap && ex.violCapHit == "" {
+			ex.violCapHit = label
+		}
+		ex.mu.Unlock()
+	}
+	panic(pathEnd{"violated:" + label})
 }
